@@ -128,6 +128,26 @@ def _case_on(repo, it, S, spec, genome, stale=False):
     if k != "ok":
         return 1, [("export", f"{desc}: gene_to_feature raises {v}", f.qual)]
     recs = it.iterate(v)
+    # the records must not depend on the hash seed: built and exported with every set iterated in the opposite order they are the same
+    if not stale:
+        from ..interp import other_hash_seed
+        def shown_rec(r_):
+            return (r_.fields["type"], sorted(parts_of(r_.fields["location"])), r_.fields.get("strand"),
+                    [(k_, list(v_) if isinstance(v_, (list, tuple)) else v_) for k_, v_ in r_.fields["qualifiers"].items()])
+        try:
+            with other_hash_seed():
+                g2 = build_gene_obj(it, S, m, par, {"note": ["n2", "n1", "n3"], "db_xref": ["b:2", "a:1"]})
+                k2, v2 = run(it, f, [g2, it.enum("GenbankFlavor")[flavor], True, it.enum("TranslationTable")[table], upd], {}, None)
+                recs2 = [shown_rec(x) for x in it.iterate(v2)] if k2 == "ok" else v2
+            g1 = build_gene_obj(it, S, m, par, {"note": ["n2", "n1", "n3"], "db_xref": ["b:2", "a:1"]})
+            k1, v1 = run(it, f, [g1, it.enum("GenbankFlavor")[flavor], True, it.enum("TranslationTable")[table], upd], {}, None)
+            recs1 = [shown_rec(x) for x in it.iterate(v1)] if k1 == "ok" else v1
+            if (k1, recs1) != (k2, recs2):
+                d_ = [(a, b) for a, b in zip(recs1, recs2) if a != b][:1] if k1 == k2 == "ok" else (k1, k2)
+                out.append(("records independent of the hash seed", f"{desc}: with multi-valued qualifiers, every set iterated in the opposite order gives "
+                            f"other records: {d_}", f.qual))
+        except Raised as ex:
+            out.append(("records independent of the hash seed", f"{desc}: raises {ex.exc_name} with multi-valued qualifiers", f.qual))
     sval = {"PLUS": 1, "MINUS": -1}[m["strand"]]
     want = [("gene", [(min(t["exons"][0][0] for t in m["txs"]), max(t["exons"][-1][1] for t in m["txs"]))], None)]
     for t in m["txs"]:
